@@ -302,7 +302,9 @@ func (c *Ctx) ruleTagPair() {
 					gets := all(vt, func(x *Term) bool { return x.Is("Call", "github.com/mitchellh/pointerstructure.Get") })
 					okV = len(gets) == 1 && len(gets[0].Args) == 2 && gets[0].Args[0].Op == "Param" && gets[0].Args[1].Is("Field", "Pointer") &&
 						gets[0].Args[1].Args[0].Op == "Index" && gets[0].Args[1].Args[0].Args[0].V == elem.Args[0].V && gets[0].Args[1].Args[0].Args[1].V == elem.Args[1].V &&
-						elem.Args[0].Find(func(x *Term) bool { return x.Is("Call", "invoke encrypt.Taggable.Tags") && x.Args[0].V == gets[0].Args[0].V }) != nil
+						elem.Args[0].Find(func(x *Term) bool {
+							return x.Is("Call", "invoke encrypt.Taggable.Tags") && x.Args[0].V == gets[0].Args[0].V
+						}) != nil
 				}
 				// the write-back pointer (withPointer) and the tracking entry (trackTaggable) name the same location
 				if okF && okV {
@@ -1314,15 +1316,15 @@ func (c *Ctx) freshUsageRecord(v ssa.Value, f *ssa.Function, d int) (bool, strin
 func (c *Ctx) ruleNodeTypes(rule string) {
 	p, r := c.P, c.R
 	want := map[string]string{
-		"(*eventlogger.FileSink).Type":                             "NodeTypeSink",
-		"(*sinks/writer.Sink).Type":                                "NodeTypeSink",
-		"(*sinks/channel.ChannelSink).Type":                        "NodeTypeSink",
-		"(*eventlogger.Filter).Type":                               "NodeTypeFilter",
-		"(*filters/encrypt.Filter).Type":                           "NodeTypeFilter",
-		"(*filters/gated.Filter).Type":                             "NodeTypeFilter",
-		"(*eventlogger.JSONFormatter).Type":                        "NodeTypeFormatter",
-		"(*eventlogger.JSONFormatterFilter).Type":                  "NodeTypeFormatterFilter",
-		"(*formatter_filters/cloudevents.FormatterFilter).Type":    "NodeTypeFormatterFilter",
+		"(*eventlogger.FileSink).Type":                          "NodeTypeSink",
+		"(*sinks/writer.Sink).Type":                             "NodeTypeSink",
+		"(*sinks/channel.ChannelSink).Type":                     "NodeTypeSink",
+		"(*eventlogger.Filter).Type":                            "NodeTypeFilter",
+		"(*filters/encrypt.Filter).Type":                        "NodeTypeFilter",
+		"(*filters/gated.Filter).Type":                          "NodeTypeFilter",
+		"(*eventlogger.JSONFormatter).Type":                     "NodeTypeFormatter",
+		"(*eventlogger.JSONFormatterFilter).Type":               "NodeTypeFormatterFilter",
+		"(*formatter_filters/cloudevents.FormatterFilter).Type": "NodeTypeFormatterFilter",
 	}
 	consts := map[string]string{}
 	if pkg := p.SSAPkgs[PkgRoot]; pkg != nil {
@@ -2032,8 +2034,10 @@ func (c *Ctx) ruleNamePattern() {
 		ok := t.Op == "Bin" && t.Name == "+" && len(t.Args) == 2 && t.Args[0].Op == "Bin" && t.Args[0].Name == "+" && t.Args[0].Args[1].Is("Const", `"-%s"`)
 		why := ""
 		if ok {
-			ext := t.Args[1]
-			stem := t.Args[0].Args[0]
+			ext, extEsc := pctEscaped(t.Args[1])
+			stem, stemEsc := pctEscaped(t.Args[0].Args[0])
+			// the pattern is a fmt format: the configured text in it must have its % doubled (F40)
+			r.Check(stemEsc && extEsc, rule, "fileNamePattern:text-escaped", p.InstrPos(pa.End), "the file name's stem and extension enter the format with % escaped", "the configured file name is put into the format string as it is: a % in FileName is read as a verb, the timestamped names come out garbled (cpu100%s.log%!(EXTRA ...)) and are not recognised by pruning")
 			ok = stem.Is("Call", "strings.TrimSuffix") && len(stem.Args) == 2 && stem.Args[0].Is("Field", "FileName") && stem.Args[0].Args[0].IsParam("0:fs") && stem.Args[1].String() == ext.String()
 			if ok {
 				isExt := ext.Is("Call", "path/filepath.Ext") && ext.Args[0].Is("Field", "FileName")
@@ -2225,15 +2229,20 @@ func (c *Ctx) ruleNoResweep() {
 // Taggable itself for a one-level pointer), with the LAST path segment as the key.
 // Marking a key of an ancestor map hides everything else below that key from the
 // sweep — unclassified siblings in the intermediate maps leave in plaintext.
-func (c *Ctx) ruleMarkFiltered() {
+func (c *Ctx) ruleMarkFiltered(rule string) {
 	p, r := c.P, c.R
-	const rule = "C09.mark"
 	n := 0
 	for _, f := range p.FuncsIn(PkgEncrypt) {
 		tb := p.NewTerms(nil)
 		for _, ci := range callsTo(f, func(nm string, cc *ssa.CallCommon) bool { return nm == "(*filters/encrypt.tMap).markFieldFiltered" }) {
 			n++
 			key := tb.Of(ci.Common().Args[1])
+			// the key is the last segment, unescaped the way pointerstructure resolves it
+			// (RFC 6901: ~1 -> "/", then ~0 -> "~"): the tracking and the resolver must agree on
+			// which key of the map a pointer names
+			inner, unescaped := c.pointerUnescape(key)
+			r.Check(unescaped, rule, p.ShortFn(f)+"->markFieldFiltered:key-unescaped", p.InstrPos(ci), "the recorded key is the pointer segment with ~1 and ~0 unescaped, as pointerstructure resolves it", "the key recorded as filtered is the pointer segment as written ("+key.String()+"), while pointerstructure unescapes ~1 and ~0 before it looks the key up: for a key that contains '/' or '~' the record names a key the map does not have, and the sweep filters the real key a second time — a public value is redacted, an encrypted or hmac-ed one is replaced")
+			key = inner
 			// key = segs[len(segs)-1]
 			okKey := key.Op == "Index" && len(key.Args) == 2 && key.Args[1].Op == "Bin" && key.Args[1].Name == "-" &&
 				key.Args[1].Args[0].Is("Call", "builtin len") && key.Args[1].Args[0].Args[0].V == key.Args[0].V && key.Args[1].Args[1].Is("Const", "1") &&
@@ -2419,12 +2428,35 @@ func sliceOrigins(v ssa.Value, seen map[ssa.Value]bool, elems *[]ssa.Value, apps
 	}
 }
 
-// fromGlob: the string value is an element of the result of filepath.Glob — read
-// directly, or through a slice accumulated (append) from such elements.
+// listingName: t is filepath.Join(fs.Path, entry.Name()) for an entry of
+// os.ReadDir(fs.Path) — a name of the sink's own directory; returns the entry.Name() term.
+func listingName(t *Term) *Term {
+	if !t.Is("Call", "path/filepath.Join") || len(t.Args) != 1 || t.Args[0].Op != "Varargs" || len(t.Args[0].Args) != 2 {
+		return nil
+	}
+	dir, name := t.Args[0].Args[0], t.Args[0].Args[1]
+	if dir.String() != "Field[Path](Param(0:fs))" || !name.Is("Call", "invoke os.DirEntry.Name") || len(name.Args) == 0 || name.Args[0].Op != "Index" {
+		return nil
+	}
+	if name.Args[0].Args[0].Find(func(x *Term) bool {
+		return x.Is("Call", "os.ReadDir") && len(x.Args) == 1 && x.Args[0].String() == "Field[Path](Param(0:fs))"
+	}) == nil {
+		return nil
+	}
+	return name
+}
+
+// fromGlob: the string value is a name found in the sink's directory — an element
+// of the result of filepath.Glob, or Join(fs.Path, entry.Name()) for an entry of
+// os.ReadDir(fs.Path) — read directly, or through a slice accumulated (append) from
+// such elements.
 func fromGlob(tb *Terms, v ssa.Value) bool {
 	isGlobElem := func(e ssa.Value) bool {
 		t := tb.Of(e)
-		return t.Op == "Index" && t.Args[0].Find(func(x *Term) bool { return x.Is("Call", "path/filepath.Glob") }) != nil
+		if t.Op == "Index" && t.Args[0].Find(func(x *Term) bool { return x.Is("Call", "path/filepath.Glob") }) != nil {
+			return true
+		}
+		return listingName(t) != nil
 	}
 	if isGlobElem(v) {
 		if ld, ok := stripConv(v).(*ssa.UnOp); ok {
@@ -2469,15 +2501,16 @@ func fromGlob(tb *Terms, v ssa.Value) bool {
 
 // ruleOptionAliasing (C09.optalias): the variadic option lists of the walkers share
 // their backing arrays with the callers' lists.
-//   A. No append targets a truncating reslice (x[:k] without a capacity bound) of a
-//      slice that derives from the function's own slice parameter: such an append
-//      rewrites, or lets later appends rewrite, elements the CALLER still sees — a
-//      write-back pointer appended three levels down ends up in the option list the
-//      caller uses for the next sibling field, whose value is then "filtered" at
-//      that other location and itself forwarded in plaintext.
-//   B. The internal withIgnoreTaggable option is added for one recursion only: the
-//      result of appending it is used as a call argument and never flows back into
-//      the list used for the following fields (no loop-carried phi).
+//
+//	A. No append targets a truncating reslice (x[:k] without a capacity bound) of a
+//	   slice that derives from the function's own slice parameter: such an append
+//	   rewrites, or lets later appends rewrite, elements the CALLER still sees — a
+//	   write-back pointer appended three levels down ends up in the option list the
+//	   caller uses for the next sibling field, whose value is then "filtered" at
+//	   that other location and itself forwarded in plaintext.
+//	B. The internal withIgnoreTaggable option is added for one recursion only: the
+//	   result of appending it is used as a call argument and never flows back into
+//	   the list used for the following fields (no loop-carried phi).
 func (c *Ctx) ruleOptionAliasing() {
 	p, r := c.P, c.R
 	const rule = "C09.optalias"
@@ -2798,4 +2831,1533 @@ func (c *Ctx) ruleComposer(rule string) {
 	if n < 1 {
 		r.Und(rule, "instance-floor", "", "no assignment of Filter.composeFrom found")
 	}
+}
+
+// rulePartialWrite (C08.partial): "only whole events": a first write that fails may
+// have put some of the event's bytes into the file. The retry path must look at how
+// many (to roll the fragment back, or at least to know about it) before it writes
+// the whole event again behind it. A retry that ignores the first attempt's byte
+// count leaves fragment + whole event in the file when the retry succeeds.
+func (c *Ctx) rulePartialWrite() {
+	p, r := c.P, c.R
+	const rule = "C08.partial"
+	fn := c.Fn(rule, PkgRoot, "FileSink", "Process")
+	if fn == nil {
+		return
+	}
+	n := 0
+	for _, pa := range c.enum(rule, fn, PathOpts{Inline: inlineSmall("(*eventlogger.FileSink).open", "(*eventlogger.FileSink).rotate", "(*eventlogger.FileSink).reopen", "(*eventlogger.Event).Format")}) {
+		var writes []*ssa.Call
+		for _, s := range pa.Steps {
+			if cl, ok := s.In.(*ssa.Call); ok && !s.Deferred && calleeName(&cl.Call) == "(*bytes.Reader).WriteTo" {
+				writes = append(writes, cl)
+			}
+		}
+		if len(writes) < 2 {
+			continue
+		}
+		n++
+		first := writes[0]
+		examined := false
+		for _, ref := range nonDebugRefs(first) {
+			ex, ok := ref.(*ssa.Extract)
+			if !ok || ex.Index != 0 {
+				continue
+			}
+			// used on the failure side: any use other than the success-side addition to BytesWritten
+			for _, u := range nonDebugRefs(ex) {
+				if bo, isB := u.(*ssa.BinOp); isB && bo.Op == token.ADD {
+					continue
+				}
+				examined = true
+			}
+		}
+		r.Check(examined, rule, "(*FileSink).Process:retry-after-partial-write", p.InstrPos(writes[1]), "the retry path examines how many bytes the failed first attempt wrote", "the whole event is written again after a failed first attempt whose byte count is never looked at: if that attempt wrote part of the event (disk full, file size limit), the file holds the fragment followed by the whole event — not only whole events")
+		break
+	}
+	if n == 0 {
+		r.Und(rule, "(*FileSink).Process:retry-after-partial-write", p.Pos(fn.Pos()), "no path with a retried write found")
+	}
+}
+
+// rulePipelineCopies (C04.copy): the set of registered pipelines has ONE home, the
+// sync.Map inside graphMap. Any other long-lived field of Broker / graph / graphMap
+// whose type can hold pipelines (a cache, a snapshot list) is a second copy that Send
+// reads while RegisterPipeline / RemovePipeline update the first: it is tolerable only
+// if every write to it happens with Broker.lock held for writing (then it changes
+// atomically with the map). A copy refreshed from Send's side (no lock, "publish what
+// I just ranged over") can overwrite a newer invalidation and keep delivering to a
+// removed pipeline, or never to a new one, after every caller has returned.
+func (c *Ctx) rulePipelineCopies(rule string) {
+	p, r := c.P, c.R
+	must := c.MustLocks()
+	var pkg *types.Package
+	for _, sp := range p.SSA.AllPackages() {
+		if sp.Pkg.Path() == PkgRoot {
+			pkg = sp.Pkg
+		}
+	}
+	if pkg == nil {
+		r.Und(rule, "anchor", "", "package eventlogger not loaded")
+		return
+	}
+	roots := map[string]bool{"Broker": true, "graph": true, "graphMap": true}
+	var holds func(t types.Type, seen map[types.Type]bool) bool
+	holds = func(t types.Type, seen map[types.Type]bool) bool {
+		if seen[t] {
+			return false
+		}
+		seen[t] = true
+		switch x := t.(type) {
+		case *types.Named:
+			if x.Obj().Pkg() == pkg && (x.Obj().Name() == "registeredPipeline" || x.Obj().Name() == "linkedNode") {
+				return true
+			}
+			if ta := x.TypeArgs(); ta != nil {
+				for i := 0; i < ta.Len(); i++ {
+					if holds(ta.At(i), seen) {
+						return true
+					}
+				}
+			}
+			if x.Obj().Pkg() == pkg && roots[x.Obj().Name()] {
+				return false // reported at that struct's own fields
+			}
+			if x.Obj().Pkg() != pkg {
+				return false
+			}
+			return holds(x.Underlying(), seen)
+		case *types.Pointer:
+			return holds(x.Elem(), seen)
+		case *types.Slice:
+			return holds(x.Elem(), seen)
+		case *types.Array:
+			return holds(x.Elem(), seen)
+		case *types.Chan:
+			return holds(x.Elem(), seen)
+		case *types.Map:
+			return holds(x.Key(), seen) || holds(x.Elem(), seen)
+		case *types.Struct:
+			for i := 0; i < x.NumFields(); i++ {
+				if holds(x.Field(i).Type(), seen) {
+					return true
+				}
+			}
+		}
+		return false
+	}
+	type fld struct{ owner, name string }
+	var copies []fld
+	nFields := 0
+	for name := range roots {
+		obj := pkg.Scope().Lookup(name)
+		if obj == nil {
+			r.Und(rule, "anchor:"+name, "", "type "+name+" not found in package eventlogger")
+			continue
+		}
+		st, ok := obj.Type().Underlying().(*types.Struct)
+		if !ok {
+			continue
+		}
+		for i := 0; i < st.NumFields(); i++ {
+			nFields++
+			if holds(st.Field(i).Type(), map[types.Type]bool{}) {
+				copies = append(copies, fld{name, st.Field(i).Name()})
+			}
+		}
+	}
+	sort.Slice(copies, func(i, j int) bool { return copies[i].owner+copies[i].name < copies[j].owner+copies[j].name })
+	if nFields < 3 {
+		r.Und(rule, "instance-floor", "", "fewer than 3 fields of Broker/graph/graphMap inspected")
+	}
+	if len(copies) == 0 {
+		r.Ok(rule, "pipeline-set:single-home", p.Pos(token.NoPos), fmt.Sprintf("%d fields of Broker, graph and graphMap inspected: none besides the sync.Map can hold pipelines", nFields))
+		return
+	}
+	for _, cp := range copies {
+		construct := cp.owner + "." + cp.name
+		bad := false
+		nW := 0
+		for _, f := range p.FuncsIn(PkgRoot) {
+			eachInstr(f, func(in ssa.Instruction) {
+				isField := func(v ssa.Value) bool {
+					fa, ok := v.(*ssa.FieldAddr)
+					if !ok {
+						return false
+					}
+					pt, ok := fa.X.Type().Underlying().(*types.Pointer)
+					if !ok {
+						return false
+					}
+					n, ok := pt.Elem().(*types.Named)
+					if !ok || n.Obj().Pkg() != pkg || n.Obj().Name() != cp.owner {
+						return false
+					}
+					return n.Underlying().(*types.Struct).Field(fa.Field).Name() == cp.name
+				}
+				write := false
+				switch x := in.(type) {
+				case *ssa.Store:
+					write = isField(x.Addr)
+				case *ssa.MapUpdate:
+					if ld, ok := x.Map.(*ssa.UnOp); ok {
+						write = isField(ld.X)
+					}
+				case ssa.CallInstruction:
+					cc := x.Common()
+					if !cc.IsInvoke() && len(cc.Args) > 0 && isField(cc.Args[0]) {
+						if sc := cc.StaticCallee(); sc != nil {
+							switch sc.Name() {
+							case "Load", "Range", "Len":
+							default:
+								write = true
+							}
+						}
+					}
+				}
+				if !write {
+					return
+				}
+				nW++
+				if must.At(in)["eventlogger.Broker.lock"] != 'W' {
+					bad = true
+					r.Bad(rule, construct+":written-without-registry-lock@"+p.ShortFn(f), p.InstrPos(in), "field "+construct+" can hold registered pipelines — a second copy of the set kept in the sync.Map — and is written here without Broker.lock held for writing: refreshed from a reader's side it can overwrite a newer invalidation, so a Send that starts after RemovePipeline returned still delivers to the removed pipeline (or never to a new one)")
+				}
+			})
+		}
+		if !bad {
+			r.Ok(rule, construct, p.Pos(token.NoPos), fmt.Sprintf("second holder of pipelines; all %d writes happen under Broker.lock held for writing", nW))
+		}
+	}
+}
+
+// ruleCloserFirst (C06.close): NodeController.Close closes the REGISTERED node when it
+// is a Closer and unwraps only a node that is not: every Unwrap() is reached only on
+// the failed side of a Closer assertion of the very value it unwraps. With the tests
+// the other way round a decorator that has both methods is unregistered without ever
+// being closed, and the node behind it — which the broker never registered, and which
+// several decorators may share — is closed instead, once per decorator.
+func (c *Ctx) ruleCloserFirst(rule string) {
+	p, r := c.P, c.R
+	fn := c.Fn(rule, PkgRoot, "NodeController", "Close")
+	if fn == nil {
+		return
+	}
+	asserted := func(v ssa.Value) (ssa.Value, string) { // v = extract #0 of typeassert,ok X.(T)
+		ex, ok := v.(*ssa.Extract)
+		if !ok {
+			if ta, ok := v.(*ssa.TypeAssert); ok {
+				return ta.X, typeShort(ta.AssertedType)
+			}
+			return nil, ""
+		}
+		ta, ok := ex.Tuple.(*ssa.TypeAssert)
+		if !ok {
+			return nil, ""
+		}
+		return ta.X, typeShort(ta.AssertedType)
+	}
+	n := 0
+	for _, ci := range callsTo(fn, func(name string, cc *ssa.CallCommon) bool { return name == "invoke eventlogger.NodeUnwrapper.Unwrap" }) {
+		n++
+		x, _ := asserted(ci.Common().Value)
+		ok := false
+		if x != nil {
+			for _, b := range fn.Blocks {
+				cond, _, fsucc := condOf(b)
+				ex, isEx := cond.(*ssa.Extract)
+				if !isEx || ex.Index != 1 {
+					continue
+				}
+				ta, isTA := ex.Tuple.(*ssa.TypeAssert)
+				if !isTA || ta.X != x || typeShort(ta.AssertedType) != "eventlogger.Closer" {
+					continue
+				}
+				if edgeDominates(b, fsucc, ci.Block()) {
+					ok = true
+				}
+			}
+		}
+		r.Check(ok, rule, "NodeController.Close:closer-first", p.InstrPos(ci), "a node is unwrapped only after it was found not to be a Closer itself", "a node is unwrapped without first having been found not to be a Closer: a registered node that has both Close and Unwrap is never closed, and the node behind it, which the broker did not register, is closed in its place")
+	}
+	if n == 0 {
+		r.Und(rule, "NodeController.Close:closer-first", p.Pos(fn.Pos()), "no Unwrap() call found in NodeController.Close")
+	}
+}
+
+// ruleFileReopen (C08.reopen): "external renames of the active file followed by
+// Reopen". After Reopen returned successfully the sink writes to the file that is NOW
+// at the configured path. (a) the exported Reopen always runs the internal reopen()
+// unless the path is one of the pass-through specials — a shortcut "the file is still
+// there" cannot tell the file it has open from a new one created in its place (the
+// logrotate `create` flow), and later acknowledged events land in the moved file.
+// (b) every successful path of reopen() for a real file ends in open(), and a handle
+// that is still held at that point was closed before.
+func (c *Ctx) ruleFileReopen(rule string) {
+	p, r := c.P, c.R
+	special := func(pa *Path) bool {
+		for _, at := range pa.Atoms {
+			if at.Op == "eq" && !at.Neg && at.L.Is("Field", "Path") && at.R.Op == "Const" &&
+				(at.R.Name == `"/dev/null"` || at.R.Name == `"/dev/stdout"` || at.R.Name == `"/dev/stderr"`) {
+				return true
+			}
+		}
+		return false
+	}
+	if fn := c.Fn(rule, PkgRoot, "FileSink", "Reopen"); fn != nil {
+		ok, n := true, 0
+		for _, pa := range c.enum(rule, fn, PathOpts{}) {
+			if special(pa) {
+				continue
+			}
+			n++
+			var call ssa.Value
+			for _, s := range pa.CallsOn() {
+				if s.Depth == 0 && stepCallName(s) == "(*eventlogger.FileSink).reopen" {
+					call = s.In.(ssa.Value)
+				}
+			}
+			rv := pa.RetVals()
+			if call == nil || len(rv) != 1 || stripConv(rv[0]) != call {
+				ok = false
+				r.Bad(rule, "(*FileSink).Reopen:always-reopens", p.InstrPos(pa.End), "Reopen can return without having closed and reopened the file (and without returning reopen()'s result): a file that was moved aside and replaced at the same path stays the one written to, and events acknowledged afterwards are lost with it ("+p.PathSummary(pa)+")")
+				break
+			}
+		}
+		if ok {
+			r.Check(n > 0, rule, "(*FileSink).Reopen:always-reopens", p.Pos(fn.Pos()), fmt.Sprintf("%d paths for a real file, each returns the result of reopen()", n), "no path of Reopen for a real file found")
+		}
+	}
+	if fn := c.Fn(rule, PkgRoot, "FileSink", "reopen"); fn != nil {
+		ok, n := true, 0
+		for _, pa := range c.enum(rule, fn, PathOpts{}) {
+			if special(pa) {
+				continue
+			}
+			n++
+			var openCall ssa.Value
+			closed := false
+			var handleTest *bool // the last `fs.f == nil` test before open
+			for _, s := range pa.CallsOn() {
+				if s.Depth != 0 {
+					continue
+				}
+				switch stepCallName(s) {
+				case "(*eventlogger.FileSink).open":
+					openCall = s.In.(ssa.Value)
+				case "(*os.File).Close":
+					if openCall == nil {
+						closed = true
+					}
+				}
+			}
+			for _, at := range pa.Atoms {
+				if at.Op == "eq" && at.L.Is("Field", "f") && at.R.Is("Const", "nil") {
+					v := !at.Neg
+					handleTest = &v
+				}
+			}
+			rv := pa.RetVals()
+			success := len(rv) == 1 && (isNilConst(rv[0]) || (openCall != nil && stripConv(rv[0]) == openCall))
+			if !success {
+				continue // an error is reported: nothing is acknowledged on it
+			}
+			switch {
+			case openCall == nil:
+				ok = false
+				r.Bad(rule, "reopen:ends-in-open", p.InstrPos(pa.End), "reopen() succeeds without opening the file at the configured path ("+p.PathSummary(pa)+")")
+			case handleTest != nil && !*handleTest && !closed:
+				ok = false
+				r.Bad(rule, "reopen:close-before-open", p.InstrPos(pa.End), "reopen() opens the configured path again while the old handle, found still valid, was not closed ("+p.PathSummary(pa)+")")
+			}
+			if !ok {
+				break
+			}
+		}
+		if ok {
+			r.Check(n > 0, rule, "reopen:ends-in-open", p.Pos(fn.Pos()), fmt.Sprintf("%d paths for a real file: every successful one ends in open(), closing a handle that was still held", n), "no path of reopen() for a real file found")
+		}
+	}
+}
+
+// ruleShortcutConverse (C09.shortcut): the "nothing is being filtered" early return
+// of Process forwards the event untouched, so it may be taken ONLY when the effective
+// operation of every classification is none. The flag that decides it (a boolean
+// carried around a loop) therefore (1) starts false, (2) is computed in a loop over
+// the complete effective table — the map returned by DefaultFilterOperations(), into
+// which the overrides are written —, (3) stays unset in an iteration only on the
+// failed side of `table[class] != none` for that iteration's class, and (4) the loop
+// runs to exhaustion. A flag seeded from the configuration (len(overrides) == 0) or
+// computed over the overrides alone lets a partial all-none override set switch the
+// whole filter off: secret and unclassified values leave in plaintext.
+func (c *Ctx) ruleShortcutConverse(proc *ssa.Function, flag *ssa.Phi, noneConst string) {
+	p, r := c.P, c.R
+	const rule, construct = "C09.shortcut", "Process:nothing-to-filter-only-if-all-none"
+	hdr := flag.Block()
+	var reasons []string
+	// the loop of the flag: ranges over DefaultFilterOperations()
+	var next *ssa.Next
+	for _, in := range hdr.Instrs {
+		if n, ok := in.(*ssa.Next); ok {
+			next = n
+		}
+	}
+	var table ssa.Value
+	if next == nil {
+		reasons = append(reasons, "the flag is not carried around a range loop")
+	} else if rg, ok := next.Iter.(*ssa.Range); !ok {
+		reasons = append(reasons, "the loop of the flag does not range over a map")
+	} else if call, ok := rg.X.(*ssa.Call); !ok || calleeName(&call.Call) != "filters/encrypt.DefaultFilterOperations" {
+		reasons = append(reasons, "the loop that computes the flag does not range over the complete table of operations (DefaultFilterOperations() with the overrides applied) but over "+p.NewTerms(nil).Of(rg.X).String())
+	} else {
+		table = rg.X
+	}
+	inLoop := func(b *ssa.BasicBlock) bool { return b == hdr || (hdr.Dominates(b) && reachableFrom(b)[hdr]) }
+	for i, e := range flag.Edges {
+		pred := hdr.Preds[i]
+		if !inLoop(pred) {
+			if b, ok := constBool(e); !ok || b {
+				reasons = append(reasons, "the flag does not start out false (it is "+p.NewTerms(nil).Of(e).String()+" before the loop): a configuration can pre-empt the per-class tests")
+			}
+			continue
+		}
+		if b, ok := constBool(e); ok && b {
+			continue // set: direction decided by C10.guards
+		}
+		if e != ssa.Value(flag) {
+			reasons = append(reasons, "the flag is assigned something other than true inside the loop")
+			continue
+		}
+		// carried unchanged: only by the failed side of table[class] != none
+		cond, _, fsucc := condOf(pred)
+		okTest := false
+		if bo, isB := cond.(*ssa.BinOp); isB && bo.Op == token.NEQ && fsucc == hdr && table != nil && next != nil {
+			if lk, isL := bo.X.(*ssa.Lookup); isL && lk.X == table {
+				if k, isK := bo.Y.(*ssa.Const); isK && k.Value != nil && k.Value.ExactString() == noneConst {
+					if ex, isE := lk.Index.(*ssa.Extract); isE && ex.Tuple == ssa.Value(next) && ex.Index == 1 {
+						okTest = true
+					}
+				}
+			}
+		}
+		if !okTest {
+			reasons = append(reasons, "an iteration can leave the flag unset other than by finding that the table's operation for this iteration's class is none")
+		}
+	}
+	// exhaustion: the only edge leaving the loop is the range's own
+	for _, b := range proc.Blocks {
+		if !inLoop(b) {
+			continue
+		}
+		for _, s := range b.Succs {
+			if !inLoop(s) && b != hdr {
+				reasons = append(reasons, "the loop can be left before every class was looked at")
+			}
+		}
+	}
+	if len(reasons) == 0 {
+		r.Ok(rule, construct, p.Pos(flag.Pos()), "the flag starts false, is computed over every class of DefaultFilterOperations() with the overrides applied, and stays unset in an iteration only when that class's operation is none")
+		return
+	}
+	sort.Strings(reasons)
+	at := flag.Pos()
+	if !at.IsValid() {
+		at = proc.Pos()
+	}
+	r.Bad(rule, construct, p.Pos(at), "the untouched early return can be taken although some classification still has an operation: "+strings.Join(uniqStrings(reasons), "; ")+" — with such a configuration secret, sensitive or unclassified values are forwarded in plaintext")
+}
+
+func uniqStrings(in []string) []string {
+	var out []string
+	for i, s := range in {
+		if i == 0 || s != in[i-1] {
+			out = append(out, s)
+		}
+	}
+	return out
+}
+
+// ruleShortcut locates the nothing-to-filter flag of Process — an If on a boolean phi,
+// ahead of the deep copy, whose false side returns the event parameter untouched —
+// and applies ruleShortcutConverse to it.
+func (c *Ctx) ruleShortcut(proc *ssa.Function) {
+	p, r := c.P, c.R
+	noneConst := "?"
+	if pkg := p.SSAPkgs[PkgEncrypt]; pkg != nil {
+		if k, ok := pkg.Members["NoOperation"].(*ssa.NamedConst); ok {
+			noneConst = k.Value.Value.ExactString()
+		}
+	}
+	copies := callsTo(proc, func(n string, cc *ssa.CallCommon) bool { return n == "github.com/mitchellh/copystructure.Copy" })
+	if len(copies) != 1 {
+		return // C10.copy reports
+	}
+	cp := copies[0]
+	tb := p.NewTerms(nil)
+	n := 0
+	for _, b := range proc.Blocks {
+		cond, _, fs := condOf(b)
+		phi, isPhi := cond.(*ssa.Phi)
+		if !isPhi || !(b == cp.Block() || b.Dominates(cp.Block())) || len(fs.Instrs) == 0 {
+			continue
+		}
+		ret, ok := fs.Instrs[len(fs.Instrs)-1].(*ssa.Return)
+		if !ok {
+			continue
+		}
+		rv := RetVals(ret)
+		if len(rv) != 2 || !tb.Of(rv[0]).IsParam("2:e") || !isNilConst(rv[1]) {
+			continue
+		}
+		n++
+		c.ruleShortcutConverse(proc, phi, noneConst)
+	}
+	if n == 0 {
+		r.Ok("C09.shortcut", "Process:nothing-to-filter-only-if-all-none", p.Pos(proc.Pos()), "Process has no flag-guarded untouched early return ahead of the copy (C10.guards decides whether it must)")
+	}
+}
+
+// ruleNoHandOff (C11.section / C17.section): a helper of the gated filter that is
+// entered with Filter.l held by every caller (openGate) keeps it held throughout. If it
+// lets go of the lock in the middle — "don't stall other callers during the send" —
+// the sweep that called it is holding a saved list position and the group is still in
+// the list: a concurrent Process / FlushAll emits the same group a second time, and
+// the sweep, resuming at an element that was unlinked meanwhile, stops early and
+// leaves younger groups gated although it reports success.
+func (c *Ctx) ruleNoHandOff(rule, pkg string) {
+	p, r := c.P, c.R
+	must := c.MustLocks()
+	n, bad := 0, false
+	for f, e := range must.Entry {
+		if PkgPathOf(f) == pkg && len(e) > 0 {
+			n++
+		}
+	}
+	for _, is := range must.Issues {
+		if PkgPathOf(is.Fn) != pkg || !strings.HasPrefix(is.Detail, "hand-off:") {
+			continue
+		}
+		bad = true
+		r.Bad(rule, p.ShortFn(is.Fn)+":releases-callers-lock:"+is.Class, p.InstrPos(is.Instr), p.ShortFn(is.Fn)+" "+strings.TrimPrefix(is.Detail, "hand-off: "))
+	}
+	if !bad {
+		r.Check(n > 0, rule, "helpers-keep-callers-lock", "", fmt.Sprintf("%d function(s) entered with a lock held by every caller; none releases it", n), "no function of the package is entered with a lock held (openGate is expected)")
+	}
+}
+
+// pointerUnescape: t is the RFC 6901 unescaping of some term X — Replace(Replace(X,
+// "~1", "/"), "~0", "~") written in place or as the body of a package-local helper —
+// and returns X. Otherwise returns t itself and false.
+func (c *Ctx) pointerUnescape(t *Term) (*Term, bool) {
+	chain := func(t *Term) (*Term, bool) {
+		isRepl := func(x *Term, from, to string) (*Term, bool) {
+			if x.Op != "Call" || (x.Name != "strings.Replace" && x.Name != "strings.ReplaceAll") || len(x.Args) < 3 {
+				return nil, false
+			}
+			if !x.Args[1].Is("Const", from) || !x.Args[2].Is("Const", to) {
+				return nil, false
+			}
+			if x.Name == "strings.Replace" && (len(x.Args) != 4 || !x.Args[3].Is("Const", "-1")) {
+				return nil, false
+			}
+			return x.Args[0], true
+		}
+		in1, ok := isRepl(t, `"~0"`, `"~"`)
+		if !ok {
+			return nil, false
+		}
+		return isRepl(in1, `"~1"`, `"/"`)
+	}
+	if x, ok := chain(t); ok {
+		return x, true
+	}
+	if t.Op == "Call" && len(t.Args) == 1 {
+		if call, ok := t.V.(*ssa.Call); ok {
+			if callee := call.Call.StaticCallee(); callee != nil && PkgPathOf(callee) == PkgEncrypt && len(callee.Params) == 1 {
+				tb := c.P.NewTerms(nil)
+				okAll, n := true, 0
+				for _, b := range callee.Blocks {
+					if len(b.Instrs) == 0 {
+						continue
+					}
+					if ret, isRet := b.Instrs[len(b.Instrs)-1].(*ssa.Return); isRet {
+						n++
+						rv := RetVals(ret)
+						if len(rv) != 1 {
+							okAll = false
+							continue
+						}
+						x, ok := chain(tb.Of(rv[0]))
+						if !ok || x.Op != "Param" {
+							okAll = false
+						}
+					}
+				}
+				if okAll && n > 0 {
+					return t.Args[0], true
+				}
+			}
+		}
+	}
+	return t, false
+}
+
+// ruleNilNode (C05.nilnode): RegisterNode stores only a non-nil Node. A nil Node in
+// the registry makes the next RegisterPipeline that lists its id panic on Type()
+// (in doValidate, under the write lock) — it neither succeeds nor returns an error.
+func (c *Ctx) ruleNilNode(rule string) {
+	p, r := c.P, c.R
+	fn := c.Fn(rule, PkgRoot, "Broker", "RegisterNode")
+	if fn == nil {
+		return
+	}
+	n, ok := 0, true
+	for _, pa := range c.enum(rule, fn, PathOpts{Inline: inlineSmall()}) {
+		stores := false
+		for _, s := range pa.Steps {
+			if mu, isMU := s.In.(*ssa.MapUpdate); isMU && pa.TermsAt(s).Of(mu.Map).Is("Field", "nodes") {
+				stores = true
+			}
+		}
+		if !stores {
+			continue
+		}
+		n++
+		isNil, found := hasAtom(pa, func(at Atom) bool { return at.Op == "eq" && at.L.IsParam("2:node") && at.R.Is("Const", "nil") })
+		if (!found || isNil) && ok {
+			ok = false
+			r.Bad(rule, "RegisterNode:nil-node-rejected", p.InstrPos(pa.End), "a node is entered in the registry on a path that did not exclude a nil Node: the next RegisterPipeline that lists this id calls Type() on it and panics instead of returning an error ("+p.PathSummary(pa)+")")
+		}
+	}
+	if ok {
+		r.Check(n > 0, rule, "RegisterNode:nil-node-rejected", p.Pos(fn.Pos()), fmt.Sprintf("%d registering paths, each after node != nil", n), "no path of RegisterNode stores into Broker.nodes")
+	}
+}
+
+// ruleSendUnderNodeLock (C12.held-send): "including when a node's Process or Close
+// calls Send on the same Broker". A library node that sends through the Broker
+// (gated.Filter through its Sender) must not do so while it holds a lock that its own
+// Process acquires: the event it sends runs a whole pipeline, and if any node of that
+// pipeline — a sink that emits an audit event, say — sends an event which is routed
+// to this node again, that Process blocks on the lock, the pipeline never finishes,
+// and the outer Send never returns. Exception E1 (C12.e1-*) only covers the event
+// the node sends ITSELF (it is not Gateable, so its own pass through Process returns
+// before the lock); it says nothing about what the nodes downstream send.
+func (c *Ctx) ruleSendUnderNodeLock(rule string) {
+	p, r := c.P, c.R
+	may := c.MayLocks()
+	proc := c.Fn(rule, PkgGated, "Filter", "Process")
+	if proc == nil {
+		return
+	}
+	// lock classes Process acquires, directly or through package-local callees
+	acquired := map[string]string{}
+	seen := map[*ssa.Function]bool{}
+	var walk func(f *ssa.Function, d int)
+	walk = func(f *ssa.Function, d int) {
+		if seen[f] || d > 4 {
+			return
+		}
+		seen[f] = true
+		eachInstr(f, func(in ssa.Instruction) {
+			ci, ok := in.(ssa.CallInstruction)
+			if !ok {
+				return
+			}
+			if op := lockOpOf(ci.Common()); op != nil && op.Acquire {
+				if _, dup := acquired[op.Class]; !dup {
+					acquired[op.Class] = p.InstrPos(in)
+				}
+			}
+			if callee := ci.Common().StaticCallee(); callee != nil && PkgPathOf(callee) == PkgGated {
+				walk(callee, d+1)
+			}
+		})
+	}
+	walk(proc, 0)
+	n := 0
+	for _, f := range p.FuncsIn(PkgGated) {
+		eachInstr(f, func(in ssa.Instruction) {
+			ci, ok := in.(ssa.CallInstruction)
+			if !ok || !ci.Common().IsInvoke() {
+				return
+			}
+			nt, ok := ci.Common().Value.Type().(*types.Named)
+			if !ok || nt.Obj().Pkg() == nil || nt.Obj().Pkg().Path() != PkgGated || nt.Obj().Name() != "Sender" {
+				return
+			}
+			n++
+			held := may.At(in)
+			var classes []string
+			for h := range held {
+				if _, acq := acquired[h]; acq {
+					classes = append(classes, h)
+				}
+			}
+			sort.Strings(classes)
+			if len(classes) == 0 {
+				r.Ok(rule, p.ShortFn(f)+"->Sender.Send", p.InstrPos(in), "no lock that Process acquires is held across the send")
+				return
+			}
+			for _, h := range classes {
+				r.Bad(rule, p.ShortFn(f)+"->Sender.Send:held:"+h, p.InstrPos(in), "the filter sends through the Broker while "+h+" may be held, and (*Filter).Process acquires that lock ("+acquired[h]+"): a node of the pipeline that processes the sent event and itself sends a Gateable event re-enters Process, which blocks on the lock; the outer Broker.Send never returns", append([]string{"lock held at the send because:"}, may.WhyChain(f, h)...)...)
+			}
+		})
+	}
+	if n == 0 {
+		r.Und(rule, "instance-floor", "", "no Sender.Send call found in package gated")
+	}
+}
+
+// ---------------------------------------------------------------------------
+// ruleNilElem (C09.nilelem): reflect.Value.Elem() of a nil pointer or nil interface is
+// the zero Value, and nearly every method of the zero Value panics (Type, Interface,
+// Field, Len, ...). The walkers dereference struct fields, slice elements and map
+// values; each dereference whose operand was not proven non-nil must be followed by a
+// validity test (== reflect.ValueOf(nil), IsValid, or a Kind() == K test) on every path
+// to such a method — the struct-field arm does this (`if field == reflect.ValueOf(nil)
+// { continue }`), and its siblings (slice elements in Process, filterField and the
+// sweep) must agree, or a nil element ([]*T{nil}, a JSON null inside a list) makes
+// Process panic inside the pipeline goroutine instead of filtering or failing.
+// The analysis is a forward reachability search on the SSA CFG from each Elem() (and,
+// one level down, from the parameter of a package-local callee the value is handed
+// to) that is cut at the safe side of every validity test on the value or a phi of it.
+type nilElemException struct{ Fn, Operand, Why string }
+
+// confirmed by reading; an exception applies to the Elem() whose operand term contains Operand
+var nilElemExceptions = []nilElemException{
+	{"(*filters/encrypt.Filter).Process", "Call[reflect.ValueOf](Field[Payload](", "the payload pointer itself: a nil or zero payload returned the original before the copy (C10.guards copy-guards decides that), and the deep copy of a non-nil pointer is non-nil"},
+	{"(*filters/encrypt.trackedMaps).processUnfiltered", "Call[(reflect.Value).MapIndex](", "a map value that is a nil interface was skipped by the `field.Interface() == nil` test just above it (the rule verifies that test is still there); values of tracked maps can be interfaced, they are reached through exported fields of the deep copy"},
+	{"(*filters/encrypt.trackedMaps).processUnfiltered", "Field[value](Index(Call[(*filters/encrypt.trackedMaps).unfiltered](", "a tracked value of type *structpb.Struct is non-nil: every caller of trackMap hands over such a pointer only after having looked through it (Elem().FieldByName(\"Fields\") is a map)"},
+}
+
+func (c *Ctx) ruleNilElem(rule string) {
+	p, r := c.P, c.R
+	safe := map[string]bool{"Kind": true, "IsValid": true, "CanSet": true, "CanAddr": true, "String": true}
+	isValueMethod := func(cc *ssa.CallCommon) (string, bool) {
+		if cc.IsInvoke() {
+			return "", false
+		}
+		f := cc.StaticCallee()
+		if f == nil || f.Signature.Recv() == nil || typeShort(f.Signature.Recv().Type()) != "reflect.Value" {
+			return "", false
+		}
+		return f.Name(), true
+	}
+	isValueOfNil := func(v ssa.Value) bool {
+		call, ok := v.(*ssa.Call)
+		if !ok || calleeName(&call.Call) != "reflect.ValueOf" {
+			return false
+		}
+		return isNilConst(call.Call.Args[0])
+	}
+	// derived set: the source and every phi fed by a member
+	derive := func(f *ssa.Function, src ssa.Value) map[ssa.Value]bool {
+		d := map[ssa.Value]bool{src: true}
+		for changed := true; changed; {
+			changed = false
+			eachInstr(f, func(in ssa.Instruction) {
+				ph, ok := in.(*ssa.Phi)
+				if !ok || d[ph] {
+					return
+				}
+				for _, e := range ph.Edges {
+					if d[e] {
+						d[ph] = true
+						changed = true
+					}
+				}
+			})
+		}
+		return d
+	}
+	// unsafeSucc: the block ends in a validity test of a derived value; returns the successor on
+	// which the value may still be the zero Value (nil: not such a test)
+	unsafeSucc := func(b *ssa.BasicBlock, d map[ssa.Value]bool) *ssa.BasicBlock {
+		cond, ts, fs := condOf(b)
+		if cond == nil {
+			return nil
+		}
+		switch x := cond.(type) {
+		case *ssa.BinOp:
+			if x.Op != token.EQL && x.Op != token.NEQ {
+				return nil
+			}
+			eqSucc, neSucc := ts, fs
+			if x.Op == token.NEQ {
+				eqSucc, neSucc = fs, ts
+			}
+			switch {
+			case d[x.X] && isValueOfNil(x.Y), d[x.Y] && isValueOfNil(x.X):
+				return eqSucc // equal to the zero Value: unsafe; the other side is valid
+			}
+			// Kind() == K (K a real kind)
+			kindOf := func(v ssa.Value) bool {
+				call, ok := v.(*ssa.Call)
+				if !ok {
+					return false
+				}
+				if m, isM := isValueMethod(&call.Call); isM && m == "Kind" && d[call.Call.Args[0]] {
+					return true
+				}
+				return false
+			}
+			if k, ok := constInt(x.Y); ok && k != 0 && kindOf(x.X) {
+				return neSucc
+			}
+		case *ssa.Call:
+			if m, isM := isValueMethod(&x.Call); isM && m == "IsValid" && d[x.Call.Args[0]] {
+				return fs
+			}
+		}
+		return nil
+	}
+	type finding struct {
+		at  ssa.Instruction
+		why string
+	}
+	var search func(f *ssa.Function, src ssa.Value, start *ssa.BasicBlock, startIdx int, depth int, seenFn map[*ssa.Function]bool) *finding
+	search = func(f *ssa.Function, src ssa.Value, start *ssa.BasicBlock, startIdx int, depth int, seenFn map[*ssa.Function]bool) *finding {
+		d := derive(f, src)
+		var srcBlock *ssa.BasicBlock
+		if in, ok := src.(ssa.Instruction); ok {
+			srcBlock = in.Block()
+		}
+		type item struct {
+			b   *ssa.BasicBlock
+			idx int
+		}
+		visited := map[*ssa.BasicBlock]bool{}
+		work := []item{{start, startIdx}}
+		for len(work) > 0 {
+			it := work[0]
+			work = work[1:]
+			for i := it.idx; i < len(it.b.Instrs); i++ {
+				ci, ok := it.b.Instrs[i].(ssa.CallInstruction)
+				if !ok {
+					continue
+				}
+				cc := ci.Common()
+				if m, isM := isValueMethod(cc); isM && len(cc.Args) > 0 && d[cc.Args[0]] && !safe[m] {
+					return &finding{it.b.Instrs[i], "reflect.Value." + m + "() is called on it"}
+				}
+				if callee := cc.StaticCallee(); callee != nil && PkgPathOf(callee) == PkgEncrypt && len(callee.Blocks) > 0 && depth < 2 && !seenFn[callee] {
+					for ai, a := range cc.Args {
+						if d[a] && ai < len(callee.Params) {
+							seenFn[callee] = true
+							if fd := search(callee, callee.Params[ai], callee.Blocks[0], 0, depth+1, seenFn); fd != nil {
+								return &finding{it.b.Instrs[i], "it is handed to " + p.ShortFn(callee) + ", where " + fd.why + " (" + p.InstrPos(fd.at) + ")"}
+							}
+							delete(seenFn, callee)
+						}
+					}
+				}
+			}
+			succs := it.b.Succs
+			if us := unsafeSucc(it.b, d); us != nil {
+				succs = []*ssa.BasicBlock{us}
+			}
+			for _, s := range succs {
+				if srcBlock != nil && s != srcBlock && s.Dominates(srcBlock) {
+					continue // leaves the scope of the value (next loop iteration)
+				}
+				if srcBlock != nil && s == srcBlock {
+					continue
+				}
+				if !visited[s] {
+					visited[s] = true
+					work = append(work, item{s, 0})
+				}
+			}
+		}
+		return nil
+	}
+	n, nGuarded := 0, 0
+	for _, f := range p.FuncsIn(PkgEncrypt) {
+		if strings.Contains(p.ShortFn(f), "$") && f.Parent() == nil {
+			continue
+		}
+		eachInstr(f, func(in ssa.Instruction) {
+			call, ok := in.(*ssa.Call)
+			if !ok {
+				return
+			}
+			if m, isM := isValueMethod(&call.Call); !isM || m != "Elem" {
+				return
+			}
+			n++
+			o := call.Call.Args[0]
+			ot := p.NewTerms(nil).Of(o).String()
+			if len(ot) > 70 {
+				ot = ot[:70] + "…"
+			}
+			construct := p.ShortFn(f) + ":Elem(" + ot + ")"
+			// operand proven non-nil
+			if oc, ok := o.(*ssa.Call); ok {
+				switch calleeName(&oc.Call) {
+				case "reflect.New":
+					r.Ok(rule, construct, p.InstrPos(in), "Elem of reflect.New: never the zero Value")
+					return
+				}
+			}
+			for _, b := range f.Blocks {
+				cond, _, fs := condOf(b)
+				if cc, ok := cond.(*ssa.Call); ok {
+					if m, isM := isValueMethod(&cc.Call); isM && m == "IsNil" && cc.Call.Args[0] == o && edgeDominates(b, fs, in.Block()) {
+						r.Ok(rule, construct, p.InstrPos(in), "the operand was tested !IsNil()")
+						return
+					}
+				}
+			}
+			// the same operand was already looked through: Kind(Elem(o)) == K on the way here
+			for _, b := range f.Blocks {
+				cond, ts, _ := condOf(b)
+				if bo, ok := cond.(*ssa.BinOp); ok && bo.Op == token.EQL {
+					if k, isK := constInt(bo.Y); isK && k != 0 {
+						if kc, ok := bo.X.(*ssa.Call); ok {
+							if m, isM := isValueMethod(&kc.Call); isM && m == "Kind" {
+								if ec, ok := kc.Call.Args[0].(*ssa.Call); ok {
+									if m2, isM2 := isValueMethod(&ec.Call); isM2 && m2 == "Elem" && ec.Call.Args[0] == o && edgeDominates(b, ts, in.Block()) {
+										r.Ok(rule, construct, p.InstrPos(in), "Elem() of the same operand was found to have a real kind on the way here")
+										return
+									}
+								}
+							}
+						}
+					}
+				}
+			}
+			fullOT := p.NewTerms(nil).Of(o).String()
+			for _, exc := range nilElemExceptions {
+				if exc.Fn != p.ShortFn(f) || !strings.HasPrefix(fullOT, exc.Operand) {
+					continue
+				}
+				okExc := true
+				if strings.Contains(exc.Operand, "MapIndex") {
+					// the `Interface() == nil` test of the operand precedes the dereference (it sits behind
+					// `CanInterface() &&`, so it does not dominate it)
+					okExc = false
+					for _, b := range f.Blocks {
+						cond, _, _ := condOf(b)
+						if bo, ok := cond.(*ssa.BinOp); ok && bo.Op == token.EQL && isNilConst(bo.Y) && reachableFrom(b)[in.Block()] {
+							if ic, ok := bo.X.(*ssa.Call); ok {
+								if m, isM := isValueMethod(&ic.Call); isM && m == "Interface" && ic.Call.Args[0] == o {
+									okExc = true
+								}
+							}
+						}
+					}
+				}
+				if okExc {
+					r.Ok(rule, construct, p.InstrPos(in), "exception: "+exc.Why)
+					r.Exceptions = append(r.Exceptions, rule+" "+construct+": "+exc.Why)
+					return
+				}
+			}
+			if fd := search(f, call, in.Block(), instrIndex(in)+1, 0, map[*ssa.Function]bool{f: true}); fd != nil {
+				r.Bad(rule, construct, p.InstrPos(fd.at), "the result of Elem() at "+p.InstrPos(in)+" is the zero Value when the pointer or interface is nil, and "+fd.why+" on a path with no validity test in between: a nil element or field makes Process panic (the struct-field arm tests `== reflect.ValueOf(nil)` first; this site does not)")
+				return
+			}
+			nGuarded++
+			r.Ok(rule, construct, p.InstrPos(in), "every path to a method that panics on the zero Value passes a validity test first")
+		})
+	}
+	if n < 8 {
+		r.Und(rule, "instance-floor", "", fmt.Sprintf("only %d Elem() sites found in package encrypt (at least 8 confirmed by hand)", n))
+	}
+}
+
+// pctEscaped: t is X with every % doubled (a strings.Replacer for "%" -> "%%", or
+// strings.ReplaceAll(X, "%", "%%")); returns X.
+func pctEscaped(t *Term) (*Term, bool) {
+	if t.Is("Call", "(*strings.Replacer).Replace") && len(t.Args) == 2 && t.Args[0].Is("Call", "strings.NewReplacer") {
+		if va := t.Args[0].Args; len(va) == 1 && va[0].Op == "Varargs" && len(va[0].Args) == 2 && va[0].Args[0].Is("Const", `"%"`) && va[0].Args[1].Is("Const", `"%%"`) {
+			return t.Args[1], true
+		}
+	}
+	if t.Is("Call", "strings.ReplaceAll") && len(t.Args) == 3 && t.Args[1].Is("Const", `"%"`) && t.Args[2].Is("Const", `"%%"`) {
+		return t.Args[0], true
+	}
+	return t, false
+}
+
+// ruleRotatedName (C15.pattern): isRotatedName accepts exactly <text before the
+// stamp><digits><text after it>: every path that answers true established the
+// prefix, the suffix and a non-empty stamp, and the function answers false from
+// inside its loop over the stamp for a rune outside '0'..'9'.
+func (c *Ctx) ruleRotatedName() {
+	p, r := c.P, c.R
+	const rule = "C15.pattern"
+	var fn *ssa.Function
+	for _, f := range p.FuncsIn(PkgRoot) {
+		if f.Name() == "isRotatedName" && f.Parent() == nil {
+			fn = f
+		}
+	}
+	if fn == nil {
+		r.Und(rule, "isRotatedName", "", "function isRotatedName not found")
+		return
+	}
+	n, ok := 0, true
+	for _, pa := range c.enum(rule, fn, PathOpts{}) {
+		rv := pa.RetVals()
+		if len(rv) != 1 {
+			continue
+		}
+		if b, isC := constBool(rv[0]); !isC || !b {
+			continue
+		}
+		n++
+		has := func(call string) bool {
+			for _, at := range pa.Atoms {
+				if at.Op == "true" && !at.Neg && at.L.Is("Call", call) && len(at.L.Args) == 2 && at.L.Args[0].IsParam("1:name") {
+					return true
+				}
+			}
+			return false
+		}
+		nonEmpty := false
+		for _, at := range pa.Atoms {
+			if at.Op == "eq" && at.Neg && at.R.Is("Const", `""`) && strings.Contains(at.L.String(), "Param(1:name)") {
+				nonEmpty = true
+			}
+			if at.Op == "eq" && at.Neg && at.R.Is("Const", "0") && at.L.Is("Call", "builtin len") && strings.Contains(at.L.String(), "Param(1:name)") {
+				nonEmpty = true
+			}
+		}
+		if !(has("strings.HasPrefix") && has("strings.HasSuffix") && nonEmpty) && ok {
+			ok = false
+			r.Bad(rule, "isRotatedName:accepts", p.InstrPos(pa.End), "isRotatedName can answer true without having established the prefix, the suffix and a non-empty stamp of the name ("+p.PathSummary(pa)+")")
+		}
+	}
+	// the digit test: inside a loop, a comparison of the rune with '0' (48) / '9' (57) leads to `return false`
+	lo, hi := false, false
+	for _, b := range fn.Blocks {
+		if !inCycle(b) {
+			continue
+		}
+		cond, ts, _ := condOf(b)
+		bo, isB := cond.(*ssa.BinOp)
+		if !isB {
+			continue
+		}
+		k, isK := constInt(bo.Y)
+		if !isK {
+			continue
+		}
+		retFalse := func(s *ssa.BasicBlock) bool {
+			if len(s.Instrs) == 0 {
+				return false
+			}
+			ret, isR := s.Instrs[len(s.Instrs)-1].(*ssa.Return)
+			if !isR {
+				return false
+			}
+			rv := RetVals(ret)
+			if len(rv) != 1 {
+				return false
+			}
+			bv, isC := constBool(rv[0])
+			return isC && !bv
+		}
+		if bo.Op == token.LSS && k == 48 && retFalse(ts) {
+			lo = true
+		}
+		if bo.Op == token.GTR && k == 57 && retFalse(ts) {
+			hi = true
+		}
+	}
+	if !(lo && hi) {
+		ok = false
+		r.Bad(rule, "isRotatedName:digits", p.Pos(fn.Pos()), "isRotatedName does not reject, from inside its loop over the stamp, a rune below '0' and a rune above '9': names that are not <base>-<digits><ext> count as this sink's rotated files")
+	}
+	if ok {
+		r.Check(n > 0, rule, "isRotatedName", p.Pos(fn.Pos()), fmt.Sprintf("%d accepting paths: prefix, suffix, non-empty stamp; all-digit loop", n), "isRotatedName never answers true")
+	}
+}
+
+// ruleFuncFieldNil (C14.pred funcfield): a stock node calls a func-typed field of its
+// own configuration (Predicate, Signer, NowFunc, ...) only where that field was found
+// non-nil: calling a nil func panics in the pipeline's goroutine, which nothing
+// recovers — the whole process goes down instead of the pipeline reporting an error.
+// Most sites test first (JSONFormatterFilter, cloudevents, gated.Filter.Now); the
+// rule makes the siblings agree.
+func (c *Ctx) ruleFuncFieldNil(rule string) {
+	p, r := c.P, c.R
+	n := 0
+	for _, f := range p.RepoFuncs() {
+		if p.InCtl(f) || f.Signature.Recv() == nil {
+			continue
+		}
+		eachInstr(f, func(in ssa.Instruction) {
+			ci, ok := in.(ssa.CallInstruction)
+			if !ok || ci.Common().IsInvoke() {
+				return
+			}
+			ld, ok := ci.Common().Value.(*ssa.UnOp)
+			if !ok || ld.Op != token.MUL {
+				return
+			}
+			fa, ok := ld.X.(*ssa.FieldAddr)
+			if !ok {
+				return
+			}
+			if _, isSig := ld.Type().Underlying().(*types.Signature); !isSig {
+				return
+			}
+			if len(f.Params) == 0 || fa.X != ssa.Value(f.Params[0]) {
+				return
+			}
+			n++
+			st := fa.X.Type().Underlying().(*types.Pointer).Elem().Underlying().(*types.Struct)
+			fname := st.Field(fa.Field).Name()
+			construct := p.ShortFn(f) + ":call:" + fname
+			// dominated by the non-nil side of a test of (a load of) the same field
+			okNil := false
+			for _, b := range f.Blocks {
+				cond, ts, fs := condOf(b)
+				bo, isB := cond.(*ssa.BinOp)
+				if !isB || (bo.Op != token.EQL && bo.Op != token.NEQ) || !isNilConst(bo.Y) {
+					continue
+				}
+				l2, isL := bo.X.(*ssa.UnOp)
+				if !isL {
+					continue
+				}
+				fa2, isF := l2.X.(*ssa.FieldAddr)
+				if !isF || fa2.X != fa.X || fa2.Field != fa.Field {
+					continue
+				}
+				nonNil := ts
+				if bo.Op == token.EQL {
+					nonNil = fs
+				}
+				if edgeDominates(b, nonNil, in.Block()) {
+					okNil = true
+				}
+				// lazy initialisation: the nil side assigns the field, and the test dominates the call
+				isNilSide := fs
+				if bo.Op == token.EQL {
+					isNilSide = ts
+				}
+				if b.Dominates(in.Block()) {
+					for _, x := range isNilSide.Instrs {
+						if st, isSt := x.(*ssa.Store); isSt {
+							if fa3, isF3 := st.Addr.(*ssa.FieldAddr); isF3 && fa3.X == fa.X && fa3.Field == fa.Field && !isNilConst(st.Val) {
+								okNil = true
+							}
+						}
+					}
+				}
+			}
+			r.Check(okNil, rule, construct, p.InstrPos(in), "called only where the field was found non-nil", "the node calls its func field "+fname+" without having found it non-nil: a node configured without it panics inside the pipeline's goroutine (nothing recovers it) instead of returning an error")
+		})
+	}
+	if n < 3 {
+		r.Und(rule, "funcfield:instance-floor", "", fmt.Sprintf("only %d calls through func-typed configuration fields found (Filter.Predicate, JSONFormatterFilter.Predicate, cloudevents Predicate expected)", n))
+	}
+}
+
+// ruleNoFlatten (C20.carry no-flatten): multierror.Append flattens an argument that
+// is itself a *multierror.Error — its elements are appended instead of the error, so
+// an EMPTY (or typed nil) *multierror.Error, which is a non-nil error, contributes
+// nothing and the accumulated result can come out nil although a node failed. An
+// error that comes from outside the package (returned by a Node / Closer method,
+// directly or through package-local functions that hand it on unchanged) is
+// therefore never passed to multierror.Append as it is; it is wrapped first
+// (fmt.Errorf("...: %w")) or stored in the Errors list directly.
+func (c *Ctx) ruleNoFlatten(rule string) {
+	p, r := c.P, c.R
+	var foreign func(v ssa.Value, depth int, seen map[ssa.Value]bool) (string, bool)
+	foreign = func(v ssa.Value, depth int, seen map[ssa.Value]bool) (string, bool) {
+		if seen[v] || depth > 4 {
+			return "", false
+		}
+		seen[v] = true
+		switch x := v.(type) {
+		case *ssa.Phi:
+			for _, e := range x.Edges {
+				if w, ok := foreign(e, depth, seen); ok {
+					return w, true
+				}
+			}
+		case *ssa.Extract:
+			return foreign(x.Tuple, depth, seen)
+		case *ssa.ChangeInterface:
+			return foreign(x.X, depth, seen)
+		case *ssa.MakeInterface:
+			return "", false
+		case *ssa.Call:
+			if x.Call.IsInvoke() {
+				if nt, ok := x.Call.Value.Type().(*types.Named); ok && nt.Obj().Pkg() != nil && strings.HasPrefix(nt.Obj().Pkg().Path(), ModRoot) {
+					return "the result of " + nt.Obj().Name() + "." + x.Call.Method.Name() + " (user code)", true
+				}
+				return "", false
+			}
+			callee := x.Call.StaticCallee()
+			if callee == nil || PkgPathOf(callee) != PkgPathOf(x.Parent()) || len(callee.Blocks) == 0 {
+				return "", false
+			}
+			for _, b := range callee.Blocks {
+				if len(b.Instrs) == 0 {
+					continue
+				}
+				if ret, ok := b.Instrs[len(b.Instrs)-1].(*ssa.Return); ok {
+					for _, rv := range RetVals(ret) {
+						if types.TypeString(rv.Type(), nil) != "error" {
+							continue
+						}
+						if w, ok := foreign(rv, depth+1, seen); ok {
+							return w + " handed on by " + p.ShortFn(callee), true
+						}
+					}
+				}
+			}
+		}
+		return "", false
+	}
+	n := 0
+	for _, f := range p.FuncsIn(PkgRoot) {
+		for _, ci := range callsTo(f, func(nm string, cc *ssa.CallCommon) bool { return nm == "github.com/hashicorp/go-multierror.Append" }) {
+			n++
+			// the variadic elements: stores into the backing array of the slice argument
+			var elems []ssa.Value
+			if len(ci.Common().Args) == 2 {
+				if sl, ok := ci.Common().Args[1].(*ssa.Slice); ok {
+					if al, ok := sl.X.(*ssa.Alloc); ok {
+						for _, ref := range nonDebugRefs(al) {
+							if ia, ok := ref.(*ssa.IndexAddr); ok {
+								for _, r2 := range nonDebugRefs(ia) {
+									if st, ok := r2.(*ssa.Store); ok {
+										elems = append(elems, st.Val)
+									}
+								}
+							}
+						}
+					}
+				} else {
+					elems = append(elems, ci.Common().Args[1]) // errs... passed through
+				}
+			}
+			bad := ""
+			for _, e := range elems {
+				if w, ok := foreign(e, 0, map[ssa.Value]bool{}); ok {
+					bad = w
+				}
+			}
+			construct := p.ShortFn(f) + "->multierror.Append"
+			r.Check(bad == "", rule, construct, p.InstrPos(ci), "only errors made by this package are appended (Append cannot flatten them away)", "multierror.Append is given "+bad+" as it is: if that error is itself a *multierror.Error it is flattened, and an empty or typed-nil one — a non-nil error — vanishes, so the accumulated result can be nil although a node failed")
+		}
+	}
+	if n == 0 {
+		r.Ok(rule, "multierror.Append:none", "", "package eventlogger does not use multierror.Append")
+	}
+}
+
+// ruleUnwrapProgress (C12.progress): the unwrap loop of NodeController.Close makes
+// progress on its own account: every iteration that does not return replaces the
+// node under examination by the result of Unwrap(). If an iteration can keep the
+// same node (an Unwrap() result that is ignored when nil, say), the loop examines
+// it again for ever, and RemoveNode / RemovePipelineAndNodes never return although
+// every node method returns at once.
+func (c *Ctx) ruleUnwrapProgress(rule string) {
+	p, r := c.P, c.R
+	fn := c.Fn(rule, PkgRoot, "NodeController", "Close")
+	if fn == nil {
+		return
+	}
+	n, ok := 0, true
+	for h := range loopHeaders(fn) {
+		for _, in := range h.Instrs {
+			ph, isPhi := in.(*ssa.Phi)
+			if !isPhi || typeShort(ph.Type()) != "eventlogger.Node" {
+				continue
+			}
+			n++
+			for i, e := range ph.Edges {
+				pred := h.Preds[i]
+				if !(h.Dominates(pred) && reachableFrom(pred)[h]) {
+					continue // entry edge
+				}
+				// the value carried around the loop is an Unwrap() result (possibly through phis
+				// of Unwrap() results), never the node examined in this iteration
+				var bad func(v ssa.Value, seen map[ssa.Value]bool) bool
+				bad = func(v ssa.Value, seen map[ssa.Value]bool) bool {
+					if seen[v] {
+						return false
+					}
+					seen[v] = true
+					switch x := v.(type) {
+					case *ssa.Phi:
+						if x == ph {
+							return true
+						}
+						for _, e2 := range x.Edges {
+							if bad(e2, seen) {
+								return true
+							}
+						}
+						return false
+					case *ssa.Call:
+						return !(x.Call.IsInvoke() && x.Call.Method.Name() == "Unwrap")
+					}
+					return true
+				}
+				if bad(e, map[ssa.Value]bool{}) {
+					ok = false
+					at := pred.Instrs[len(pred.Instrs)-1].Pos()
+					if !at.IsValid() {
+						at = fn.Pos()
+					}
+					r.Bad(rule, "NodeController.Close:unwrap-progress", p.Pos(at), "an iteration of the unwrap loop can go round with the same node (the value carried back is not the result of Unwrap()): such a node is examined again for ever and the Broker call that closes it never returns")
+				}
+			}
+		}
+	}
+	if ok {
+		r.Check(n > 0, rule, "NodeController.Close:unwrap-progress", p.Pos(fn.Pos()), "every iteration that does not return continues with the result of Unwrap()", "no loop over a Node value found in NodeController.Close")
+	}
+}
+
+// ruleGatedPassOnly (C11.pass, converse): "non-Gateable events pass through
+// unchanged" — Process answers anything other than (e, nil) only after it found the
+// payload to be Gateable, the one exception being the missing event. A guard placed
+// in front of the Gateable test (a "missing payload" check, say) rejects events the
+// filter has no business with, and they never reach the rest of their pipeline.
+func (c *Ctx) ruleGatedPassOnly(rule string) {
+	p, r := c.P, c.R
+	fn := c.Fn(rule, PkgGated, "Filter", "Process")
+	if fn == nil {
+		return
+	}
+	n, ok := 0, true
+	for _, pa := range c.enum(rule, fn, PathOpts{}) {
+		rv := pa.RetVals()
+		if len(rv) != 2 {
+			continue
+		}
+		gateable, tested := hasAtom(pa, func(at Atom) bool {
+			return at.Op == "true" && at.L.Op == "Extract" && at.L.Name == "1" && at.L.Args[0].Is("Assert", "gated.Gateable")
+		})
+		if tested && gateable {
+			continue
+		}
+		if nilEv, f := hasAtom(pa, func(at Atom) bool { return at.Op == "eq" && at.L.IsParam("2:e") && at.R.Is("Const", "nil") }); f && nilEv {
+			continue
+		}
+		n++
+		if !(pa.TermsAt(pa.LastStep()).Of(rv[0]).IsParam("2:e") && isNilConst(rv[1])) && ok {
+			ok = false
+			r.Bad(rule, "gated.(*Filter).Process:only-gateable-rejected", p.InstrPos(pa.End), "Process answers something other than (e, nil) on a path that did not find the payload Gateable (and the event is not nil): a non-Gateable event is rejected or swallowed instead of passing through unchanged ("+p.PathSummary(pa)+")")
+		}
+	}
+	if ok {
+		r.Check(n > 0, rule, "gated.(*Filter).Process:only-gateable-rejected", p.Pos(fn.Pos()), fmt.Sprintf("%d paths without a Gateable payload, each returns (e, nil)", n), "no path of Process for a non-Gateable payload found")
+	}
+}
+
+// ruleTaggedRaw (C16.raw): the bytes that are encrypted / hmac-ed for a value reached
+// through a pointer tag are the value's own bytes: the interface value returned by
+// pointerstructure.Get is turned into bytes only by a closed set of conversions that
+// are the identity on strings and byte slices — fmt.Sprintf with the constant format
+// "%s", a type assertion (to string, []byte, *structpb.Value and its
+// GetStringValue()), or a type test. fmt.Sprint / %v print a []byte as a list of
+// decimal numbers: the value then decrypts to "[115 51 99 ...]", and its digest
+// differs from the digest of the same bytes held in a string.
+func (c *Ctx) ruleTaggedRaw(rule string) {
+	p, r := c.P, c.R
+	fn := c.Fn(rule, PkgEncrypt, "Filter", "filterValue")
+	if fn == nil {
+		return
+	}
+	gets := callsTo(fn, func(n string, cc *ssa.CallCommon) bool { return n == "github.com/mitchellh/pointerstructure.Get" })
+	if len(gets) == 0 {
+		r.Und(rule, "filterValue:tagged-raw", p.Pos(fn.Pos()), "no pointerstructure.Get call in filterValue")
+		return
+	}
+	n, ok := 0, true
+	for _, g := range gets {
+		var val ssa.Value
+		for _, ref := range nonDebugRefs(g.(ssa.Value)) {
+			if ex, isEx := ref.(*ssa.Extract); isEx && ex.Index == 0 {
+				val = ex
+			}
+		}
+		if val == nil {
+			continue
+		}
+		// every use of the value (through the variadic array of a call)
+		var visit func(v ssa.Value, seen map[ssa.Value]bool)
+		visit = func(v ssa.Value, seen map[ssa.Value]bool) {
+			if seen[v] {
+				return
+			}
+			seen[v] = true
+			for _, ref := range nonDebugRefs(v) {
+				switch x := ref.(type) {
+				case *ssa.TypeAssert, *ssa.BinOp, *ssa.If:
+					// assertion / comparison: identity-preserving
+				case *ssa.Phi:
+					visit(x, seen)
+				case *ssa.ChangeInterface:
+					visit(x, seen)
+				case *ssa.MakeInterface:
+					visit(x, seen)
+				case *ssa.Store:
+					// stored as a variadic element: find the call that takes the slice
+					if ia, isIA := x.Addr.(*ssa.IndexAddr); isIA {
+						if al, isAl := ia.X.(*ssa.Alloc); isAl {
+							for _, r2 := range nonDebugRefs(al) {
+								if sl, isSl := r2.(*ssa.Slice); isSl {
+									for _, r3 := range nonDebugRefs(sl) {
+										if call, isCall := r3.(ssa.CallInstruction); isCall {
+											n++
+											name := calleeName(call.Common())
+											good := false
+											if name == "fmt.Sprintf" {
+												if k, isK := call.Common().Args[0].(*ssa.Const); isK && k.Value != nil && k.Value.ExactString() == `"%s"` {
+													good = true
+												}
+											}
+											if strings.HasPrefix(name, "fmt.Errorf") {
+												good = true // an error message, not the bytes
+											}
+											if !good {
+												ok = false
+												r.Bad(rule, "filterValue:tagged-raw", p.InstrPos(call), "the value a pointer tag leads to is turned into bytes with "+name+" — not the identity on []byte (it prints a list of numbers) — so what is encrypted or hmac-ed is not the value's own bytes: it does not decrypt to the original, and equal inputs held as string and as []byte give different digests")
+											}
+										}
+									}
+								}
+							}
+						}
+					}
+				case ssa.CallInstruction:
+					name := calleeName(x.Common())
+					switch name {
+					case "reflect.TypeOf", "reflect.ValueOf":
+					default:
+						if !strings.HasPrefix(name, "(*google.golang.org/protobuf/types/known/structpb.Value)") {
+							n++
+							ok = false
+							r.Bad(rule, "filterValue:tagged-raw", p.InstrPos(x), "the value a pointer tag leads to is handed to "+name+" to obtain its bytes: not one of the identity-preserving conversions (Sprintf(\"%s\"), type assertion)")
+						}
+					}
+				}
+			}
+		}
+		visit(val, map[ssa.Value]bool{})
+	}
+	if ok {
+		r.Check(n > 0, rule, "filterValue:tagged-raw", p.Pos(fn.Pos()), fmt.Sprintf("%d conversions of a tagged value to bytes, all identity-preserving for string and []byte", n), "no conversion of the tagged value found")
+	}
+}
+
+// ruleSweepStoresFiltered (C09.value sweep-store): map values are not addressable, so
+// every arm of the sweep filters a private copy and must put THAT copy back with
+// SetMapIndex. For each SetMapIndex on each path, the value stored is the one that was
+// handed to the arm's filter call (filterValue / filterField) — itself, its Addr(), or
+// a value rebuilt from the very variable the filter call was pointed at. Storing the
+// original map value back throws the filtered copy away: the struct (or string) stays
+// in plaintext and Process reports no error.
+func (c *Ctx) ruleSweepStoresFiltered(rule string) {
+	p, r := c.P, c.R
+	fn := c.Fn(rule, PkgEncrypt, "trackedMaps", "processUnfiltered")
+	if fn == nil {
+		return
+	}
+	argIndex := map[string]int{"(*filters/encrypt.Filter).filterValue": 2, "(*filters/encrypt.Filter).filterField": 2, "(*filters/encrypt.Filter).filterSlice": 3}
+	n, ok := 0, true
+	reported := map[string]bool{}
+	for _, pa := range c.enum(rule, fn, PathOpts{}) {
+		var lastFilter *Step
+		for i := range pa.Steps {
+			s := pa.Steps[i]
+			if s.Depth != 0 {
+				continue
+			}
+			ci, isCall := s.In.(ssa.CallInstruction)
+			if !isCall {
+				continue
+			}
+			name := calleeName(ci.Common())
+			if _, isF := argIndex[name]; isF {
+				lastFilter = &pa.Steps[i]
+				continue
+			}
+			if name != "(reflect.Value).SetMapIndex" {
+				continue
+			}
+			n++
+			if lastFilter == nil {
+				if !reported["nofilter"] {
+					reported["nofilter"] = true
+					ok = false
+					r.Bad(rule, "processUnfiltered:sweep-store:unfiltered", p.InstrPos(s.In), "a value is stored into the swept map on a path on which no filter call preceded it")
+				}
+				continue
+			}
+			fci := lastFilter.In.(ssa.CallInstruction)
+			at := pa.TermsAt(*lastFilter).Of(fci.Common().Args[argIndex[calleeName(fci.Common())]])
+			xt := pa.TermsAt(s).Of(ci.Common().Args[2])
+			// the variable(s) the filter call was pointed at
+			roots := map[ssa.Value]bool{}
+			at.Find(func(x *Term) bool {
+				if (x.Op == "Alloc" || x.Op == "Cell") && x.V != nil {
+					roots[x.V] = true
+				}
+				return false
+			})
+			same := func(a, b *Term) bool { return (a.V != nil && a.V == b.V) || a.String() == b.String() }
+			derived := same(xt, at) ||
+				(xt.Is("Call", "(reflect.Value).Addr") && len(xt.Args) == 1 && same(xt.Args[0], at)) ||
+				xt.Find(func(x *Term) bool { return x.V != nil && roots[x.V] }) != nil
+			// a pointer held by the map: the value behind it was filtered in place, the pointer goes back
+			if !derived && xt.Is("Call", "(reflect.Value).Addr") && len(xt.Args) == 1 && xt.Args[0].Is("Call", "(reflect.Value).Elem") {
+				derived = true
+			}
+			// a struct literal rebuilt around the filtered variable (wrapperspb values): one of its
+			// fields is stored from that variable
+			if !derived {
+				xt.Find(func(x *Term) bool {
+					al, isAl := x.V.(*ssa.Alloc)
+					if !isAl {
+						return false
+					}
+					for _, ref := range nonDebugRefs(al) {
+						fa, isFA := ref.(*ssa.FieldAddr)
+						if !isFA {
+							continue
+						}
+						for _, r2 := range nonDebugRefs(fa) {
+							if st, isSt := r2.(*ssa.Store); isSt {
+								if ld, isLd := st.Val.(*ssa.UnOp); isLd && roots[ld.X] {
+									derived = true
+								}
+							}
+						}
+					}
+					return false
+				})
+			}
+			if !derived {
+				key := p.InstrPos(s.In)
+				if !reported[key] {
+					reported[key] = true
+					ok = false
+					r.Bad(rule, "processUnfiltered:sweep-store@"+calleeName(fci.Common()), p.InstrPos(s.In), "the value stored back into the map ("+shortStr(xt.String(), 90)+") is not the copy that was just filtered ("+shortStr(at.String(), 90)+"): the filtered copy is thrown away and the map keeps the plaintext value, with no error")
+				}
+			}
+		}
+	}
+	if ok {
+		r.Check(n > 0, rule, "processUnfiltered:sweep-store", p.Pos(fn.Pos()), fmt.Sprintf("%d SetMapIndex steps on the enumerated paths, each stores the value its arm filtered", n), "no SetMapIndex found in the sweep")
+	}
+}
+
+func shortStr(s string, n int) string {
+	if len(s) > n {
+		return s[:n] + "…"
+	}
+	return s
 }
